@@ -513,8 +513,12 @@ def _progress(ctx, names):
     F = ctx.load(["cairo_lang_parser", "cairo_lang_syntax"])
     TK = [n for n in names if n.startswith("Terminal")]
     ctx.floor("terminal kinds", len(TK), 60)
-    ai = A.ParserAI(F, names)
     pf = {p: f for p, f in F.fns.items() if f.body and f.crate == "cairo_lang_parser"}
+    # the routine that moves the look-ahead window is whichever pops `current_terminals` (today `advance`)
+    movers = {last_seg(f.root) for f in pf.values() for c in f.calls()
+              if c.name() == "pop_front" and c.args and "f:current_terminals" in op_prov(f, c.args[0], 4)}
+    A.BASE_CONSUMERS = tuple(sorted(set(A.BASE_CONSUMERS) | movers))
+    ai = A.ParserAI(F, names)
 
     # R9.4 a list element parser never reports success (or "already skipped") without having consumed a token
     elems = A.element_parsers(F, pf)
@@ -830,19 +834,41 @@ def _window_discipline(ctx, F):
     ctx.ob("R9.10", "window:eof-flag", n_eof >= 1 and not bad_eof,
            "Parser::eof is written only where a terminal is pushed on the window, from `kind == TerminalEndOfFile` (%d write(s))" % n_eof if n_eof and not bad_eof else
            "Parser::eof is written in %s without deriving from a comparison of the pushed terminal's kind with TerminalEndOfFile" % bad_eof, "")
-    # advance refills to at least 3 before it pops
+    # advance refills to at least 3 before it pops (the pop may sit in a helper: then every call of the helper is preceded
+    # by the refill)
     if pops:
+        def refill_depth(fn, bb):
+            best = None
+            for c in fn.calls():
+                if c.path in pushers and c.bb != bb and fn.dominates(c.bb, bb):
+                    for a in c.args[1:]:
+                        k = op_const(a)
+                        if k and k[0] == "int":
+                            best = k[1] if best is None else max(best, k[1])
+            return best
+
+        def guarded(fn, bb, depth=0):
+            """(ok, least refill depth found, where it fails)"""
+            d = refill_depth(fn, bb)
+            if d is not None:
+                return (d >= 3, d, None if d >= 3 else last_seg(fn.root))
+            if depth >= 3:
+                return (False, None, last_seg(fn.root))
+            callers = [(g, c) for g in F.fns.values() if g.body and g.crate == "cairo_lang_parser" for c in g.calls() if c.path == fn.path]
+            if not callers:
+                return (False, None, last_seg(fn.root))
+            least = None
+            for g, c in callers:
+                ok_, d_, wh = guarded(g, c.bb, depth + 1)
+                if not ok_:
+                    return (False, d_, wh)
+                least = d_ if least is None else min(least, d_)
+            return (True, least, None)
         af, pc = pops[0]
-        refills = [c for c in af.calls() if c.path in pushers and af.dominates(c.bb, pc.bb) and c.bb != pc.bb]
-        depth = None
-        for c in refills:
-            for a in c.args[1:]:
-                k = op_const(a)
-                if k and k[0] == "int":
-                    depth = k[1]
-        ctx.ob("R9.10", "window:refill-before-pop", bool(refills) and depth is not None and depth >= 3,
-               "%s refills the window to %s terminals (or to the end of file) before it pops: two look-aheads stay valid unless the next terminal is the end of file" % (last_seg(af.root), depth)
-               if refills and depth is not None and depth >= 3 else "the pop in %s is not dominated by a refill to at least 3 terminals (found %s)" % (last_seg(af.root), depth), pc.where())
+        ok_, depth, wh = guarded(af, pc.bb)
+        ctx.ob("R9.10", "window:refill-before-pop", ok_,
+               "the window is refilled to %s terminals (or to the end of file) before the pop in %s, on every way to it: two look-aheads stay valid unless the next terminal is the end of file" % (depth, last_seg(af.root))
+               if ok_ else "the pop in %s is not preceded by a refill to at least 3 terminals (found %s, in %s)" % (last_seg(af.root), depth, wh), pc.where())
 
 
 def _controls(ctx, F, names, summaries, pfns):
